@@ -306,6 +306,150 @@ impl<'de, 'a> ListIter<'de, 'a> {
         Ok(None)
     }
 //@end
+//@extract de::simple_type::ListIter::next_element_seed#total | src/de/simple_type.rs :: impl<'de, 'a> SeqAccess<'de> for ListIter<'de, 'a> :: fn next_element_seed | serves=C07 features=serialize
+//@rewrite fn next_element_seed ==> fn next_element_seed_total
+//@rewrite const DELIMITER: u8 = b' '; ==> let DELIMITER: u8 = b' ';
+//@rewrite string.as_bytes().iter().position(|ch| *ch != DELIMITER) ==> shim::position_ref(string.as_bytes(), |ch: &u8| *ch != DELIMITER)
+//@rewrite-all s.split_at( ==> shim_l::split_at(&s,
+//@rewrite .map(Some) ==> .map(|v__: T::Value| Some(v__))
+    pub fn next_element_seed_total<T>(&mut self, seed: T) -> (r: Result<Option<T::Value>, DeError>)
+    where
+        T: DeserializeSeed<'de>,
+        // C07 (never a panic, bounded time), for EVERY way the content is held -- owned content included: every `split_at` is at a
+        // character boundary inside the string, the offset of owned content stays on one, and a call that leaves content behind
+        // has made it strictly shorter (so a consumer that asks until `None` stops after at most as many items as there are bytes)
+        requires old(self).content matches Some(c) ==> content_wf(c),
+            // A-size: the byte length of a String fits usize
+            old(self).content matches Some(Content::Owned(s, _)) ==> encode_utf8(s@).len() <= usize::MAX,
+        ensures
+            final(self).escaped == old(self).escaped,
+            final(self).content matches Some(c2) ==> content_wf(c2)
+                && (old(self).content matches Some(c) && content_bytes(c2).len() < content_bytes(c).len()),
+    {
+        let ghost c0 = self.content;
+        let ghost esc = self.escaped;
+        if let Some(mut content) = self.content.take() {
+            let DELIMITER: u8 = b' ';
+
+            loop
+                invariant
+                    DELIMITER == 0x20, self.content is None, self.escaped == esc, esc == old(self).escaped, c0 == old(self).content,
+                    content_wf(content), c0 matches Some(cc) && content_bytes(content).len() <= content_bytes(cc).len(),
+                    content matches Content::Owned(s, _) ==> encode_utf8(s@).len() <= usize::MAX,
+                decreases content_bytes(content).len()
+            {
+                let string = content.as_str();
+                let ghost sb = string.spec_bytes();
+                proof {
+                    encode_utf8_valid_utf8(string@);
+                    if content is Owned { encode_utf8_valid_utf8(content->Owned_0@); }
+                }
+                if string.is_empty() {
+                    return Ok(None);
+                }
+                return match memchr(DELIMITER, string.as_bytes()) {
+                    // No delimiters in the `content`, deserialize it as a whole atomic
+                    None => { match content {
+                        Content::Input(s) => seed.deserialize(AtomicDeserializer {
+                            content: CowRef::Input(s),
+                            escaped: self.escaped,
+                        }),
+                        Content::Slice(s) => seed.deserialize(AtomicDeserializer {
+                            content: CowRef::Slice(s),
+                            escaped: self.escaped,
+                        }),
+                        Content::Owned(s, 0) => seed.deserialize(AtomicDeserializer {
+                            content: CowRef::Owned(s),
+                            escaped: self.escaped,
+                        }),
+                        Content::Owned(s, offset) => seed.deserialize(AtomicDeserializer {
+                            content: CowRef::Slice(shim_l::split_at(&s,offset).1),
+                            escaped: self.escaped,
+                        }),
+                    } },
+                    // `content` started with a space, skip them all
+                    Some(0) => {
+                        // Skip all spaces
+                        let start = shim::position_ref(string.as_bytes(), |ch: &u8| -> (x: bool) ensures x == (*ch != 0x20) { *ch != DELIMITER });
+                        proof {
+                            if let Some(k) = start {
+                                // the byte in front of the first non-space is a space (ASCII): the position behind it is a boundary --
+                                // in the string and, for owned content, in the whole buffer
+                                assert(k >= 1);
+                                lemma_ascii_boundaries(sb, k as int - 1);
+                                if content is Owned {
+                                    let w = encode_utf8(content->Owned_0@); let off = content->Owned_1;
+                                    assert(w[off + k - 1] == sb[k as int - 1]);
+                                    lemma_ascii_boundaries(w, off + k - 1);
+                                    assert(w.subrange(off + k, w.len() as int).len() < sb.len());
+                                }
+                            }
+                        }
+                        content = match (start, content) {
+                            // We cannot find any non-space character, so string contains only spaces
+                            (None, _) => return Ok(None),
+                            // Borrow result from input or deserializer depending on the initial borrowing
+                            (Some(start), Content::Input(s)) => Content::Input(shim_l::split_at(&s,start).1),
+                            (Some(start), Content::Slice(s)) => Content::Slice(shim_l::split_at(&s,start).1),
+                            // Skip additional bytes if we own data
+                            (Some(start), Content::Owned(s, skip)) => {
+                                Content::Owned(s, skip + start)
+                            }
+                        };
+                        continue;
+                    }
+                    // `content` started from an atomic
+                    Some(end) => { proof {
+                            assert(end >= 1);
+                            lemma_ascii_boundaries(sb, end as int);
+                            if content is Owned {
+                                let w = encode_utf8(content->Owned_0@); let off = content->Owned_1;
+                                assert(w[off + end] == sb[end as int]);
+                                lemma_ascii_boundaries(w, off + end);
+                                assert(w.subrange(off + end, w.len() as int).len() < sb.len());
+                            }
+                        } match content {
+                        // Borrow for the next iteration from input or deserializer depending on
+                        // the initial borrowing
+                        Content::Input(s) => {
+                            let (item, rest) = shim_l::split_at(&s,end);
+                            self.content = Some(Content::Input(rest));
+
+                            seed.deserialize(AtomicDeserializer {
+                                content: CowRef::Input(item),
+                                escaped: self.escaped,
+                            })
+                        }
+                        Content::Slice(s) => {
+                            let (item, rest) = shim_l::split_at(&s,end);
+                            self.content = Some(Content::Slice(rest));
+
+                            seed.deserialize(AtomicDeserializer {
+                                content: CowRef::Slice(item),
+                                escaped: self.escaped,
+                            })
+                        }
+                        // Skip additional bytes if we own data for next iteration, but deserialize from
+                        // the borrowed data from our buffer
+                        Content::Owned(s, skip) => {
+                            let item = shim_l::split_at(&s,skip + end).0;
+                            let result = seed.deserialize(AtomicDeserializer {
+                                content: CowRef::Slice(item),
+                                escaped: self.escaped,
+                            });
+
+                            self.content = Some(Content::Owned(s, skip + end));
+
+                            result
+                        }
+                    } },
+                }
+                .map(|v__: T::Value| -> (o: Option<T::Value>) ensures o == Some(v__) { Some(v__) });
+            }
+        }
+        Ok(None)
+    }
+//@end
 }
 
 // ---- the value a list (or any simple type) is read from: attribute values and text content ----
